@@ -126,3 +126,26 @@ PROPS['C18'] = {
     'trusted': _EVAL_TRUSTED, 'assumptions': _EVAL_ASSUME,
 }
 UNIT_TIMEOUT['eval'] = 1200
+
+PROPS['C11'] = {
+    'units': ['ops'],
+    'level_text': ('Proof, on every graph and for arbitrary argument sets, that each temporal operator function returns exactly its fixed-point '
+                   'specification (EU/EF least, EG greatest, AU least fixed point; AX/AF/AG by duality; EX with explicit self-loops), plus proved '
+                   'lemmas for the laws named in the statement: unfolding of EF / EG / EU / AU, monotonicity of EX / EU / EG / AU / AX in every '
+                   'argument, AG = largest forward-closed subset, AF = A[true U .], weak-until duality, steady states behave as self-loops for EX/AX.'),
+    'level_note': ('Trusted: Verus/Z3 and the assumed contracts of pre / var_pre / set algebra of the graph library. "Coincides with reach_backward / '
+                   'trap_forward as computed by the library" is NOT checked against the library code (foreign algorithms); what is proved is the '
+                   'mathematical characterisation (least set containing S closed under predecessors inside the unit set; largest forward-closed subset).'),
+    'explanation': 'unit ops: eval_ex, eval_ax, eval_eu_saturated (saturation loop, both loops with invariants), eval_ef_saturated, eval_eg, eval_af, eval_ag, eval_au, eval_ew, eval_aw against spec/ctl.rs; law lemmas in spec/ctl_laws.rs.',
+    'trusted': _OPS_TRUSTED,
+}
+PROPS['C06'] = {
+    'units': ['tree'],
+    'level_text': ('Proof of the consistency half: every node built by the public constructors (mk_hybrid, mk_unary, mk_binary, mk_atom, ...) from '
+                   'consistent children, and every tree returned by the token parser, satisfies wf: stored text == canonical fully parenthesised '
+                   'rendering of its structure (constants True/False, format literals read from the source) and stored height == 1 + max child height (atoms 0). '
+                   'The print/parse round trip needs the tokenizer under contract and is not claimed yet.'),
+    'level_note': 'Trusted: Verus/Z3, format! = concatenation of Display renderings (R-fmt-val), Display tables, derive(Clone). Heights below 2^32.',
+    'explanation': 'wf(node) is a postcondition of every constructor and (through `agrees`) of every parse_k; render/s_height are written from the statement in spec/syntax.rs.',
+    'trusted': ['R-fmt-val / Display tables (spec/syntax.rs)'],
+}
